@@ -97,16 +97,31 @@ class Setter:
     """The per-key loop body of a setter, compiled to closures over
     (state dict, arg symbol, world)."""
 
-    def __init__(self, fn: ast.FunctionDef, name: str, methods: Optional[Dict[str, ast.FunctionDef]] = None):
+    def __init__(self, fn: ast.FunctionDef, name: str, methods: Optional[Dict[str, ast.FunctionDef]] = None,
+                 resolve_function: Optional[Callable[[str], Optional[ast.AST]]] = None):
         self.name = name
         self.fn = fn
         self.methods = methods or {}
         self._inline_depth = 0
         loop = None
+        self.lazy_pairs: Optional[ast.AST] = None
         for s in fn.body:
             if isinstance(s, ast.For) and isinstance(s.iter, ast.Call) and isinstance(s.iter.func, ast.Attribute) \
                     and s.iter.func.attr == "items":
                 loop = s
+            elif isinstance(s, ast.For) and isinstance(s.iter, ast.Call) and isinstance(s.iter.func, ast.Name) \
+                    and isinstance(s.target, ast.Tuple) and len(s.target.elts) == 2 and any(
+                        isinstance(a, ast.Name) and a.id in ("args", "kwargs") for a in s.iter.args):
+                # pairs produced by a helper function: fine if it materialises them, not if it validates lazily
+                loop = s
+                helper = (resolve_function or (lambda n: None))(s.iter.func.id)
+                if helper is not None:
+                    ys = [n for n in walk_ordered(helper) if isinstance(n, (ast.Yield, ast.YieldFrom))]
+                    if ys:
+                        first = min(n.lineno for n in ys)
+                        late = [n for n in walk_ordered(helper) if isinstance(n, ast.Raise) and n.lineno > first]
+                        if late:
+                            self.lazy_pairs = late[0]
         if loop is None:
             raise AnalysisError(f"{name}: per-key loop `for key, value in <pairs>.items()` not found")
         t = loop.target
